@@ -123,6 +123,46 @@ fn generate(tier: &str, seed: u64, emit: &mut dyn FnMut(Case)) {
         let qs = *r.pick(QSCOPES);
         emit(mk_case(qs, &env, &ins, "rnd"));
     }
+    // 3. big deltas: many variables (and many entries) in ONE scope. Sizes straddle the thresholds at which sorting / grouping
+    //    code changes algorithm (16/17, 20/21, 32/33, 64/65, 128/129, 256/257); every variable carries an order-sensitive
+    //    combination of behaviours, inserted in a shuffled order.
+    let sizes: &[usize] = if tier == "thorough" { &[8, 12, 16, 17, 20, 21, 24, 28, 32, 33, 34, 40, 48, 63, 64, 65, 96, 128, 129, 200, 256, 257, 300] } else { &[12, 17, 21, 33, 40, 65, 129] };
+    let combos: &[&[&str]] = &[&["a", "d"], &["a", "o"], &["d", "p"], &["o", "p"], &["a", "p"], &["a", "m", "p"], &["o", "m", "p"], &["a", "d", "m", "o", "p"], &["d", "o"]];
+    let mut bi = 0u64;
+    for &nv in sizes { for (ci, combo) in combos.iter().enumerate() { for (sci, sc) in ["A", "B", "L", "P:776562"].iter().enumerate() {
+        if tier != "thorough" && (ci + sci + nv) % 2 == 1 { continue; }
+        bi += 1;
+        let mut r = Rng::for_case(seed ^ 0xb16, bi);
+        let mut ins: Vec<Ins> = vec![];
+        for v in 0..nv { for b in combo.iter() {
+            let val: Vec<u8> = match *b { "m" => b":".to_vec(), other => format!("{other}{v}").into_bytes() };
+            ins.push((sc.to_string(), b.to_string(), format!("V{v:03}").into_bytes(), val));
+        } }
+        r.shuffle(&mut ins);
+        // a few entries of other scopes in between (must not matter / must matter only through their own scope)
+        for _ in 0..r.below(4) { let at = r.below(ins.len() as u64 + 1) as usize; ins.insert(at, (r.pick(SCOPES).to_string(), r.pick(BEHS).to_string(), format!("V{:03}", r.below(nv as u64)).into_bytes(), r.pick(VALS).to_vec())); }
+        let mut env = vec![];
+        match bi % 3 { 0 => {}, 1 => { for v in 0..nv { if v % 2 == 0 { env.push((format!("V{v:03}").into_bytes(), b"e".to_vec())); } } }, _ => { for v in 0..nv { env.push((format!("V{v:03}").into_bytes(), if v % 3 == 0 { b"".to_vec() } else { b"e".to_vec() })); } } }
+        let qs = if *sc == "A" { *r.pick(&["A", "B", "L", "P:776562"]) } else { *sc };
+        emit(mk_case(qs, &env, &ins, "big"));
+    } } }
+    // 4. sampled big: 30..200 inserts over a name pool of 10..80, mostly into one scope
+    let big_samples = if tier == "thorough" { 3_000 } else { 150 };
+    for idx in 0..big_samples {
+        let mut r = Rng::for_case(seed ^ 0xb17, idx);
+        let pool = 10 + r.below(71);
+        let k = 30 + r.below(171);
+        let main_scope = *r.pick(SCOPES);
+        let mut ins = vec![];
+        for _ in 0..k {
+            let sc = if r.chance(4, 5) { main_scope } else { *r.pick(SCOPES) };
+            ins.push((sc.to_string(), r.pick(BEHS).to_string(), format!("N{}", r.below(pool)).into_bytes(), r.pick(VALS).to_vec()));
+        }
+        let mut env = vec![];
+        for n in 0..pool { if r.chance(1, 3) { env.push((format!("N{n}").into_bytes(), r.pick(VALS).to_vec())); } }
+        let qs = if r.chance(3, 4) { if main_scope == "A" { "B" } else { main_scope } } else { *r.pick(QSCOPES) };
+        emit(mk_case(qs, &env, &ins, "big-rnd"));
+    }
 }
 
 fn main() { main_loop("c04", &generate, &run_case); }
